@@ -29,10 +29,11 @@
 (***************************************************************************)
 EXTENDS CCEval, ProgsIO   \* ProgsIO defines Progs, the sequence of program records
 
-CONSTANTS Mode        \* "single" | "three"
+CONSTANTS Mode,       \* "single" | "three"
+          Sample      \* FALSE: every choice is explored; TRUE: every choice is one random draw (simulation)
 
 VARIABLES g,          \* index of the program being executed
-          x,          \* plaintext inputs, one per source input
+          x,          \* plaintext inputs chosen so far, one per Input node already evaluated
           pc,         \* next node of the compiled graph
           store,      \* store[n][p]: value of node n at party p ("na" if p never needs it)
           orc         \* the lazily sampled PRF oracle: entry -> value
@@ -78,12 +79,26 @@ NeedFrom(G, n, need) ==
            deps == {G[n].deps[k] : k \in 1..Len(G[n].deps)}
        IN NeedFrom(G, n - 1, need \cup {<<q, d>> : q \in locals, d \in deps})
 
-NeedT == [i \in 1..NP |-> NeedFrom(M(i), Len(M(i)), OutNeeds(i))]
+(* Tables derived from the programs.  They are computed once, when TLC evaluates the ASSUME     *)
+(* below, and kept in TLC register 1 (TLCSet in an ASSUME initialises the register of every     *)
+(* worker); TLCEval (= identity) forces TLC to evaluate the function constructors there and     *)
+(* then.  Semantically  NeedT = NeedTDef  etc.                                                  *)
+\* (the parameter only keeps TLC from evaluating these at start-up, before the ASSUME)
+NeedTDef(u) == TLCEval([i \in 1..NP |-> NeedFrom(M(i), Len(M(i)), OutNeeds(i))])
 \* which parties have to evaluate node n locally
-LocT == [i \in 1..NP |-> [n \in 1..Len(M(i)) |->
-            {Who(M(i), n)[p] : p \in {pp \in Parties : <<pp, n>> \in NeedT[i]}}]]
-PlanT == [i \in 1..NP |-> Plans(M(i))]
-SrcPlanT == [i \in 1..NP |-> Plans(S(i))]
+LocTDef(need) == TLCEval([i \in 1..NP |-> TLCEval([n \in 1..Len(M(i)) |->
+              {Who(M(i), n)[p] : p \in {pp \in Parties : <<pp, n>> \in need[i]}}])])
+PlanTDef(u) == TLCEval([i \in 1..NP |-> Plans(M(i))])
+SrcPlanTDef(u) == TLCEval([i \in 1..NP |-> Plans(S(i))])
+
+ASSUME TablesComputed ==
+  LET need == NeedTDef(0)
+  IN TLCSet(1, [need |-> need, loc |-> LocTDef(need), plan |-> PlanTDef(0), splan |-> SrcPlanTDef(0)])
+
+NeedT == TLCGet(1).need
+LocT == TLCGet(1).loc
+PlanT == TLCGet(1).plan
+SrcPlanT == TLCGet(1).splan
 
 LocalNeeded(i, q, n) == q \in LocT[i][n]
 
@@ -95,9 +110,11 @@ SrcInputTypes(i) == [k \in 1..Len(InputNodes(S(i))) |-> S(i)[InputNodes(S(i))[k]
 Expected(i, xs) == EvalPlain(S(i), SrcPlanT[i], xs)
 
 ---------------------------------------------------------------------------
+Pick(SS) == IF Sample THEN {RandomElement(SS)} ELSE SS
+
 Init ==
   /\ g \in 1..NP
-  /\ x \in AllSeqs(SrcInputTypes(g))
+  /\ x = <<>>
   /\ pc = 1
   /\ store = <<>>
   /\ orc = <<>>
@@ -112,70 +129,65 @@ AddV(a, b, t) ==
   IF t.k \in {"s", "a"} THEN [i \in 1..Len(a) |-> AddM(a[i], b[i], Modulus(t.st))]
   ELSE LET cs == Components(t) IN [i \in 1..Len(cs) |-> AddV(a[i], b[i], cs[i])]
 
-\* Input node n of the compiled graph: the set of possible [party -> value] assignments
+\* Input node n of the compiled graph: the set of possible <<plaintext value, [party -> value]>>
 InputChoices(i, n) ==
   LET G == M(i)
       k == InputIndex(G, n)
       o == Progs[i].owners[k]
       t == G[n].ty
+      pt == SrcInputTypes(i)[k]
       needers == {q \in Parties : LocalNeeded(i, q, n)}
-  IN IF o = "pub" THEN {[p \in Parties |-> IF p \in needers THEN x[k] ELSE "na"]}
+  IN IF o = "pub" THEN {<<v, [p \in Parties |-> IF p \in needers THEN v ELSE "na"]>> : v \in Pick(AllValues(pt))}
      ELSE IF o = "sh"
-     THEN \* t is a 3-tuple of the plaintext type; shares s0, s1, s2 = x - s0 - s1
-          LET pt == t.el[1]
-          IN IF Mode = "single"
-             THEN {[p \in Parties |-> <<s0, s1, SubV(SubV(x[k], s0, pt), s1, pt)>>] :
-                      s0 \in AllValues(pt), s1 \in AllValues(pt)}
-             ELSE {[p \in Parties |->
-                      IF p \notin needers THEN "na"
-                      ELSE LET sh == <<s0, s1, SubV(SubV(x[k], s0, pt), s1, pt)>>
-                           IN [c \in 1..3 |-> IF c - 1 = (p + 2) % 3 THEN junk[p] ELSE sh[c]]] :
-                      s0 \in AllValues(pt), s1 \in AllValues(pt), junk \in [needers -> AllValues(pt)]}
+     THEN \* t is a 3-tuple of the plaintext type; shares s0, s1, s2 = v - s0 - s1;
+          \* party p holds real components p and p+1 and junk in component p+2
+          IF Mode = "single"
+          THEN {<<v, [p \in Parties |-> <<s0, s1, SubV(SubV(v, s0, pt), s1, pt)>>]>> :
+                   v \in Pick(AllValues(pt)), s0 \in Pick(AllValues(pt)), s1 \in Pick(AllValues(pt))}
+          ELSE {<<v, [p \in Parties |->
+                   IF p \notin needers THEN "na"
+                   ELSE LET sh == <<s0, s1, SubV(SubV(v, s0, pt), s1, pt)>>
+                        IN [c \in 1..3 |-> IF c - 1 = (p + 2) % 3 THEN junk[p] ELSE sh[c]]]>> :
+                   v \in Pick(AllValues(pt)), s0 \in Pick(AllValues(pt)), s1 \in Pick(AllValues(pt)),
+                   junk \in Pick([needers -> AllValues(pt)])}
      ELSE LET ow == OwnerParty(o)
               junkers == IF Mode = "single" THEN {} ELSE needers \ {ow}
-          IN {[p \in Parties |-> IF p \notin needers THEN "na"
-                                 ELSE IF Mode = "single" \/ p = ow THEN x[k] ELSE junk[p]] :
-                junk \in [junkers -> AllValues(t)]}
+          IN {<<v, [p \in Parties |-> IF p \notin needers THEN "na"
+                                      ELSE IF Mode = "single" \/ p = ow THEN v ELSE junk[p]]>> :
+                v \in Pick(AllValues(pt)), junk \in Pick([junkers -> AllValues(t)])}
 
-Deliver(G, n, loc) == LET who == Who(G, n) IN [p \in Parties |-> loc[who[p]]]
+Deliver(G, n, loc) == LET who == Who(G, n)  l == TLCEval(loc) IN TLCEval([p \in Parties |-> l[who[p]]])
 
-StepInput(n) ==
-  /\ IsInput(M(g)[n])
-  /\ \E a \in InputChoices(g, n) : store' = Append(store, Deliver(M(g), n, a))
-  /\ orc' = orc
+(* Evaluation of one node: the set of possible <<store', orc', x'>> after node n.              *)
+(* Nondeterminism: the junk a non-owner holds for an input it needs, the free shares of an     *)
+(* already shared input, and the value of every oracle entry read for the first time.          *)
+PRFEvals(n) == {q \in Parties : LocalNeeded(g, q, n)}
+PRFEntry(n, st, q) == Entry(M(g)[n], st[M(g)[n].deps[1]][q])
+PRFNew(n, st, o) == {PRFEntry(n, st, q) : q \in PRFEvals(n)} \ DOMAIN o
 
-StepRandom(n) ==
-  /\ IsRandom(M(g)[n])
-  /\ store' = Append(store, Deliver(M(g), n, [q \in Parties |->
-                 IF LocalNeeded(g, q, n) THEN [rnd |-> n, by |-> q] ELSE "na"]))
-  /\ orc' = orc
-
-StepPRF(n) ==
-  LET G == M(g)  r == G[n]
-      evals == {q \in Parties : LocalNeeded(g, q, n)}
-      ent(q) == Entry(r, store[r.deps[1]][q])
-      new == {ent(q) : q \in evals} \ DOMAIN orc
-  IN /\ IsPRF(r)
-     /\ \E f \in [new -> PRFDomain(r)] :
-          LET o2 == f @@ orc
-          IN /\ orc' = o2
-             /\ store' = Append(store, Deliver(G, n, [q \in Parties |->
-                              IF q \in evals THEN o2[ent(q)] ELSE "na"]))
-
-StepOp(n) ==
+Succ(n, st, o) ==
   LET G == M(g)  r == G[n] IN
-  /\ ~IsInput(r) /\ ~IsRandom(r) /\ ~IsPRF(r)
-  /\ store' = Append(store, Deliver(G, n, [q \in Parties |->
-                 IF LocalNeeded(g, q, n)
-                 THEN Exec(PlanT[g][n], [k \in 1..Len(r.deps) |-> store[r.deps[k]][q]], r.ty)
-                 ELSE "na"]))
-  /\ orc' = orc
+  CASE IsInput(r) -> {<<Append(st, Deliver(G, n, a[2])), o, Append(x, a[1])>> : a \in InputChoices(g, n)}
+    [] IsRandom(r) ->
+         {<<Append(st, Deliver(G, n, [q \in Parties |->
+                IF LocalNeeded(g, q, n) THEN [rnd |-> n, by |-> q] ELSE "na"])), o, x>>}
+    [] IsPRF(r) ->
+         {LET o2 == f @@ o
+          IN <<Append(st, Deliver(G, n, [q \in Parties |->
+                   IF q \in PRFEvals(n) THEN o2[PRFEntry(n, st, q)] ELSE "na"])), o2, x>> :
+            f \in Pick([PRFNew(n, st, o) -> PRFDomain(r)])}
+    [] OTHER ->
+         {<<Append(st, Deliver(G, n, [q \in Parties |->
+                IF LocalNeeded(g, q, n)
+                THEN Exec(PlanT[g][n], [k \in 1..Len(r.deps) |-> st[r.deps[k]][q]], r.ty)
+                ELSE "na"])), o, x>>}
 
+\* One node per step: the reference granularity of the runtime.
 Step ==
   /\ pc <= Len(M(g))
-  /\ (StepInput(pc) \/ StepRandom(pc) \/ StepPRF(pc) \/ StepOp(pc))
+  /\ \E r \in Succ(pc, store, orc) : store' = r[1] /\ orc' = r[2] /\ x' = r[3]
   /\ pc' = pc + 1
-  /\ UNCHANGED <<g, x>>
+  /\ UNCHANGED g
 
 Done == pc > Len(M(g)) /\ UNCHANGED vars
 
@@ -183,7 +195,29 @@ Next == Step \/ Done
 
 Spec == Init /\ [][Next]_vars
 
----------------------------------------------------------------------------
+(* The same behaviours with the deterministic stretches between two choices collapsed into one  *)
+(* step (Step composed with itself while exactly one successor exists).  TLC explores this one: *)
+(* it visits the same final states with ~N/2 times fewer intermediate states.                   *)
+HasChoice(n, st, o) ==
+  LET r == M(g)[n] IN
+  \/ IsInput(r)
+  \/ IsPRF(r) /\ PRFNew(n, st, o) # {}
+
+RECURSIVE RunDet(_, _, _)
+RunDet(n, st, o) ==
+  IF n > Len(M(g)) \/ HasChoice(n, st, o) THEN <<n, st>>
+  ELSE RunDet(n + 1, (CHOOSE r \in Succ(n, st, o) : TRUE)[1], o)
+
+MacroStep ==
+  /\ pc <= Len(M(g))
+  /\ \E r \in Succ(pc, store, orc) :
+        LET d == RunDet(pc + 1, r[1], r[2])
+        IN pc' = d[1] /\ store' = d[2] /\ orc' = r[2] /\ x' = r[3]
+  /\ UNCHANGED g
+
+MacroSpec == Init /\ [][MacroStep]_vars     \* (no stuttering step at the end: a finished run is a terminal state)
+
+-----
 (* Properties *)
 
 Finished == pc > Len(M(g))
